@@ -178,30 +178,35 @@ pub struct SimFs {
 }
 
 /// Physical path resolution as the OS does it: every intermediate component - also one that is
-/// later cancelled by `..` - must be an existing directory. `None` = no such path.
-pub fn norm_join(dir: &str, rel: &str) -> Option<String> {
+/// later cancelled by `..` - must be an existing directory, and a directory symlink met on the way
+/// is followed (so `..` after it is relative to the link's target). `None` = no such path.
+pub fn norm_join(fs: &SimFs, dir: &str, rel: &str) -> Option<String> {
 	let full = if rel.starts_with('/') {
 		rel.to_owned()
 	} else {
 		format!("{dir}/{rel}")
 	};
-	let is_dir = |parts: &[&str]| parts.is_empty() || DIRS.contains(&format!("/{}", parts.join("/")).as_str());
+	let is_dir = |parts: &[String]| parts.is_empty() || DIRS.contains(&format!("/{}", parts.join("/")).as_str());
 	let comps: Vec<&str> = full.split('/').filter(|c| !c.is_empty() && *c != ".").collect();
-	let mut out: Vec<&str> = Vec::new();
+	let mut out: Vec<String> = Vec::new();
 	for (i, c) in comps.iter().enumerate() {
+		if !is_dir(&out) {
+			return None;
+		}
 		if *c == ".." {
-			if !is_dir(&out) {
-				return None;
-			}
 			out.pop();
 		} else {
-			// descending into `out` requires it to be a directory
-			if !is_dir(&out) {
-				return None;
+			out.push((*c).to_owned());
+			// a directory symlink in the middle of the path is followed
+			let here = format!("/{}", out.join("/"));
+			if i + 1 < comps.len() {
+				if let Some(t) = fs.aliases.get(&here) {
+					if DIRS.contains(&t.as_str()) {
+						out = t.split('/').filter(|c| !c.is_empty()).map(str::to_owned).collect();
+					}
+				}
 			}
-			out.push(c);
 		}
-		let _ = i;
 	}
 	Some(format!("/{}", out.join("/")))
 }
@@ -356,7 +361,7 @@ impl Disk {
 		let mut dirs: Vec<&str> = vec![dir];
 		dirs.extend(libs.iter().map(String::as_str));
 		for d in dirs {
-			let Some(p) = norm_join(d, rel) else {
+			let Some(p) = norm_join(&self.fs, d, rel) else {
 				continue;
 			};
 			match self.fs.lookup(&p) {
@@ -1518,6 +1523,18 @@ impl Gen<'_> {
 		if tdir == "/w" && from_dir == "/w/sub" {
 			forms.push(format!("../{name}"));
 		}
+		// through a directory symlink that points at the target's directory
+		for (a, t) in &self.fs.aliases {
+			if *t == tdir && DIRS.contains(&t.as_str()) {
+				let adir = parent(a);
+				let aname = a.rsplit('/').next().unwrap_or("");
+				if adir == from_dir {
+					forms.push(format!("{aname}/{name}"));
+					forms.push(format!("{aname}/{name}"));
+				}
+				forms.push(format!("{a}/{name}"));
+			}
+		}
 		if from_dir != "/" {
 			// relative walk through the root
 			let ups = from_dir.matches('/').count();
@@ -1818,6 +1835,12 @@ impl Scenario for C07M1 {
 		}
 		if g.rng.chance(1, 10) {
 			g.fs.aliases.insert("/w/dangling.jsonnet".to_owned(), "/w/nowhere.jsonnet".to_owned());
+		}
+		if g.rng.chance(1, 5) {
+			// a directory symlink: the same files are reachable through two directory spellings
+			let target = *g.rng.pick(&["/l0", "/l1", "/w/sub", "/w"]);
+			let link = *g.rng.pick(&["/w/dl", "/w/dl", "/l2/dl"]);
+			g.fs.aliases.insert(link.to_owned(), target.to_owned());
 		}
 		let back = g.rng.chance(1, 6);
 		for (path, code, pos) in &placed {
